@@ -67,6 +67,7 @@ type Verifier struct {
 	repoDir      string
 	axioms       []axiomText
 	rtypeIDs     map[string]int
+	inlinableCache map[*ssa.Function]bool
 	embeddedPtr  map[string]bool   // heap variables of embedded pointer fields (e.g. FileIP.BaseIP)
 	heapIsRef    map[string]string // heap variable -> "field" / "mapval:<keysort>" when its values are references
 	constGlobals map[string]Term // package-level variables that are initialised with a constant and never assigned again
@@ -95,7 +96,7 @@ func loadVerifier(repo string) (*Verifier, error) {
 	prog, spkgs := ssautil.AllPackages(pkgs, ssa.GlobalDebug)
 	prog.Build()
 	v := &Verifier{prog: prog, pkgs: pkgs, spkgs: map[string]*ssa.Package{}, decls: newDecls(), heapSorts: map[string]string{},
-		fnByKey: map[string]*ssa.Function{}, funcsDone: map[string]bool{}, repoDir: repo, rtypeIDs: map[string]int{}, heapIsRef: map[string]string{}, embeddedPtr: map[string]bool{}, lazyGlobal: map[string]string{}, constGlobals: map[string]Term{}}
+		fnByKey: map[string]*ssa.Function{}, funcsDone: map[string]bool{}, repoDir: repo, rtypeIDs: map[string]int{}, heapIsRef: map[string]string{}, embeddedPtr: map[string]bool{}, inlinableCache: map[*ssa.Function]bool{}, lazyGlobal: map[string]string{}, constGlobals: map[string]Term{}}
 	for i, p := range pkgs {
 		if spkgs[i] != nil {
 			v.spkgs[p.PkgPath] = spkgs[i]
